@@ -50,10 +50,18 @@ type procCfg struct {
 	tables, maint string // configured tokens ("" = none)
 }
 
+// tokens made of the characters configuration layers like to interpret (environment references, printf verbs, templates, escapes,
+// quotes): a token is an opaque string, the one configured is the one that opens the door (seeded change C17-J runs the configured
+// token through os.ExpandEnv: "$ecret..." is then no token at all, "Xy$7kQ" becomes another one)
+const (
+	tablesTokenMeta = `Tbl$7kQ-%41%s-${HOME}-$USER-{{.Tok}}-\n-~!#&*()[]<>?.END`
+	maintTokenMeta  = `$ecretMnt%20-$$-${X:-y}-` + "`id`" + `-'q'-"d".END`
+)
+
 var procCfgs = []procCfg{
 	{"leader", tablesToken, ""},
 	{"leader", "", maintToken},
-	{"leader", tablesToken, maintToken},
+	{"leader", tablesTokenMeta, maintTokenMeta},
 	{"leader", "", ""},
 	{"follower", tablesToken, maintToken},
 	{"follower", "", ""},
